@@ -35,15 +35,31 @@ where
     }
   }
 
+  // the first terminal is final: the history and the terminal handed to late
+  // subscribers must not be changed by calls that arrive after it
+  fn is_terminated(&self) -> bool {
+    self.was_error.read().unwrap().is_some()
+      || *self.was_completed.read().unwrap()
+  }
+
   pub fn next(&self, item: Item) {
+    if self.is_terminated() {
+      return;
+    }
     (*self.items.write().unwrap()).push(item.clone());
     self.subject.next(item);
   }
   pub fn error(&self, err: RxError) {
+    if self.is_terminated() {
+      return;
+    }
     *self.was_error.write().unwrap() = Some(err.clone());
     self.subject.error(err);
   }
   pub fn complete(&self) {
+    if self.is_terminated() {
+      return;
+    }
     *self.was_completed.write().unwrap() = true;
     self.subject.complete();
   }
